@@ -27,7 +27,7 @@ def demangle(n):
 
 
 # sizes of the opaque value types declared in witness/types.hpp
-VALUE_TYPES = {"cv::Obj": 8, "cv::Obj4": 4, "cv::ObjThrowMove": 8, "cv::ObjTD": 8}
+VALUE_TYPES = {"cv::Obj": 8, "cv::Obj4": 4, "cv::ObjThrowMove": 8, "cv::ObjTD": 8, "cv::ObjTM": 8}
 
 _VT = "|".join(re.escape(k) for k in VALUE_TYPES)
 _RX = [
@@ -76,6 +76,8 @@ def classify(name):
         if m:
             return {"kind": kind, "writes": writes, "objsize": VALUE_TYPES[m.group(1)], "type": m.group(1),
                     "nothrow": kind in ("DTOR",) or (kind in ("CTOR_MOVE", "ASSIGN_MOVE") and m.group(1) != "cv::ObjThrowMove")}
+    if d in ("cv::Dst::Dst(cv::Src const&)", "cv::Dst::Dst(cv::Src&&)"):
+        return {"kind": "CONV_COPY" if "const&" in d else "CONV_MOVE", "writes": [0] if "const&" in d else [0, 1], "objsize": 4, "type": "cv::Dst", "nothrow": False}
     m = _TRIV_EQ.match(d) or _TRIV_LT.match(d)
     if m:
         return {"kind": "EQ" if _TRIV_EQ.match(d) else "LT", "writes": [], "objsize": int(m.group(1)), "type": "cv::Triv", "nothrow": False}
